@@ -41,7 +41,13 @@ func init() {
 	}
 	badPairs[[2]string{"ident", "() block"}] = true
 	badPairs[[2]string{"|", "|"}] = true
+	badPairs[[2]string{"|", "||"}] = true
+	badPairs[[2]string{"|", "|="}] = true
 	badPairs[[2]string{"/", "*"}] = true
+	badPairs[[2]string{"/", "*="}] = true
+	badPairs[[2]string{"#", "-"}] = true
+	badPairs[[2]string{"-", "-"}] = true
+	badPairs[[2]string{"number", "%"}] = true
 }
 
 func Serialize(l []Token) string {
